@@ -289,3 +289,9 @@ def accumulation(rep, repo, mod):
     rep.ob('C13.accumulate', 'level_eval_cpu -> wave_eval_cpu(op, c, c_locs, c_caps, sim, delays, simctl_int[:, sim], seed)', ok)
     if not ok:
         rep.violate('C13.accumulate', mod, lc, calls[0] if calls else 'wave_eval_cpu(...)', 'level_eval_cpu must call the kernel with (op, c, c_locs, c_caps, sim, delays, simctl_int[:, sim], seed)', node=lc)
+
+
+def thorough(rep, repo):
+    """Thorough tier: the quick rules plus checker self-validation on the C13 slice of the mutation corpus."""
+    from kvstatic import thorough as thorough_mod
+    thorough_mod.selftest_slice(rep, repo, 'C13')
